@@ -1,7 +1,10 @@
 package main
 
 import (
+	"fmt"
+	"go/constant"
 	"go/types"
+	"strings"
 
 	"golang.org/x/tools/go/ssa"
 )
@@ -93,7 +96,37 @@ func (f *frame) stdlib(i *ssa.Call, full string, args []T, st *State, pc string)
 		return []T{f.freshErr(st, pc, true)}, pc, true
 	case "fmt.Println", "fmt.Printf", "fmt.Print":
 		return []T{g.s.decl("n", "Int"), f.freshErr(st, pc, false)}, pc, true
-	case "fmt.Sprintf", "fmt.Sprint":
+	case "fmt.Sprintf":
+		// a constant format applied to its arguments is a function of those arguments
+		if c, ok := i.Call.Args[0].(*ssa.Const); ok && c.Value != nil {
+			if sl, ok := i.Call.Args[1].(*ssa.Slice); ok {
+				if pt, ok := sl.X.Type().Underlying().(*types.Pointer); ok {
+					if arr, ok := pt.Elem().Underlying().(*types.Array); ok {
+						n := int(arr.Len())
+						h := g.elemHeapOf(arr.Elem())
+						a := g.readHeap(st, h, f.val(sl.X).S)
+						fn := fmt.Sprintf("sprintf.%s.%d", strings.TrimPrefix(g.s.lit(constant.StringVal(c.Value)), "lit"), n)
+						var as, so []string
+						for k := 0; k < n; k++ {
+							as = append(as, fmt.Sprintf("(select %s %d)", a, k))
+							so = append(so, "Any")
+						}
+						decl := fmt.Sprintf("(declare-fun %s (%s) B)", fn, strings.Join(so, " "))
+						if !g.s.decls[decl] {
+							g.s.decls[decl] = true
+							g.s.lines = append(g.s.lines, decl)
+						}
+						return []T{g.s.def(i.Name(), T{"(mk false " + app(fn, as...) + ")", "NB"})}, pc, true
+					}
+				}
+			}
+			if cn, ok := i.Call.Args[1].(*ssa.Const); ok && cn.Value == nil {
+				return []T{{"(mk false " + g.s.lit(constant.StringVal(c.Value)) + ")", "NB"}}, pc, true
+			}
+		}
+		r := g.s.decl("sprintf", "B")
+		return []T{{"(mk false " + r.S + ")", "NB"}}, pc, true
+	case "fmt.Sprint":
 		r := g.s.decl("sprintf", "B")
 		return []T{{"(mk false " + r.S + ")", "NB"}}, pc, true
 	}
